@@ -121,3 +121,75 @@ def c18_custom(tier, seed):
     elif not violations and not inconclusive:
         inconclusive.append("constprobe build failed without a classifiable error: " + stderr[-400:])
     return violations, [], inconclusive, build_log, agg
+
+
+CLASS_CODES = {
+    "Lk": {"E0271", "E0277", "E0308", "E0599", "E0282", "E0283", "E0284", "E0107", "E0369", "E0631"},
+    "Mv": {"E0382", "E0505", "E0507"},
+    "Bw": {"E0499", "E0502", "E0503", "E0505", "E0506", "E0515", "E0521", "E0597", "E0716", "E0596", "E0594", "E0713", "E0310", "E0621"},
+}
+LIFETIME_TEXT = ("lifetime may not live long enough", "borrowed data escapes", "does not live long enough")
+
+
+def c12_corpus(tier, seed):
+    """rustc's verdict on every program of the accept/reject corpus, per target"""
+    t0 = time.time()
+    driver.ensure_links()
+    lock = os.path.join(CORPUS, "Cargo.lock")
+    if not os.path.exists(lock):
+        import shutil
+        shutil.copy(os.path.join(driver.repo_path(), "Cargo.lock"), lock)
+    expect = json.load(open(os.path.join(CORPUS, "expect.json")))
+    rc, msgs, stderr = cargo_json(["cargo", "check", "--offline", "--bins", "--keep-going", "--message-format=json"], CORPUS)
+    errs = {}
+    lib_broken = []
+    checked = set()
+    for j in msgs:
+        if j.get("reason") == "compiler-artifact" and j.get("target", {}).get("kind") == ["bin"]:
+            checked.add(j["target"]["name"])
+        if j.get("reason") != "compiler-message":
+            continue
+        m = j["message"]
+        if m.get("level") != "error" or m.get("message", "").startswith("aborting due"):
+            continue
+        t = j.get("target", {})
+        if "bin" not in t.get("kind", []):
+            lib_broken.append(m.get("message", "")[:200])
+            continue
+        errs.setdefault(t["name"], []).append(((m.get("code") or {}).get("code"), m.get("message", "")))
+    violations, inconclusive = [], []
+    if lib_broken:
+        inconclusive.append("a dependency of the corpus failed to compile: " + lib_broken[0])
+        return [], [], inconclusive, [{"engines": ["corpus"], "variant": "cargo-check", "secs": round(time.time() - t0, 1), "rc": rc}], {}
+    n_acc = n_rej = 0
+    fam_count = {}
+    samples = []
+    for name, e in sorted(expect.items()):
+        got = errs.get(name, [])
+        fam = e["family"]
+        fam_count[fam] = fam_count.get(fam, 0) + 1
+        if e["expect"] == "accept":
+            n_acc += 1
+            if got:
+                violations.append({"prop": "C12", "sig": f"corpus|{fam}|AcceptedProgramRejected", "case": f"C12 corpus {name}",
+                                   "detail": f"a correct program no longer compiles: {got[0][0]} {got[0][1][:300]}", "log": [],
+                                   "variant": "rustc", "engine": "corpus", "args": []})
+        else:
+            n_rej += 1
+            if not got:
+                violations.append({"prop": "C12", "sig": f"corpus|{fam}|RejectedProgramAccepted", "case": f"C12 corpus {name}",
+                                   "detail": f"a program that must be a compile error (class {e['class']}, twin {e.get('twin')}) now compiles", "log": [],
+                                   "variant": "rustc", "engine": "corpus", "args": []})
+            else:
+                codes = {c for c, _ in got}
+                in_class = any((c in CLASS_CODES[e["class"]]) or (c is None and e["class"] == "Bw" and any(t in msg for t in LIFETIME_TEXT)) for c, msg in got)
+                if not in_class:
+                    inconclusive.append(f"corpus program {name} is rejected, but for an unexpected reason {sorted(str(c) for c in codes)} (expected class {e['class']})")
+        if len(samples) < 14 and (n_acc + n_rej) % 24 == 1:
+            samples.append(f"{name}: expect {e['expect']} ({e['class']}), rustc errors: {[c for c, _ in got][:3]}")
+    total = n_acc + n_rej
+    agg = {"corpus/rustc": {"cases": total, "nontrivial": n_rej, "violations": len(violations),
+                            "counters": {"corpus.accept_programs": n_acc, "corpus.reject_programs": n_rej, **{f"corpus.family.{k}": v for k, v in fam_count.items()}},
+                            "ops": {}, "samples": samples, "shards": 1, "wall_s": round(time.time() - t0, 1), "notes": []}}
+    build_log = [{"engines": ["corpus"], "variant": "cargo-check", "secs": round(time.time() - t0, 1), "rc": rc}]
+    return violations, [], inconclusive, build_log, agg
